@@ -13,7 +13,8 @@ package singleflight
 //	Group: the only field of type sync.Mutex; the only field of a type map[string]*<struct>
 //	<struct> (`call` today): the only field of kind int (the count of callers that joined)
 //
-// An ambiguous or different shape (two int fields, an RWMutex, a sync.Map, ...) is a set-up failure:
+// An ambiguous or different shape (two int fields of which none is named `dups` any more, an RWMutex, a sync.Map, ...)
+// is a set-up failure:
 // start-up panics with a message saying what was looked for and what was found, the driver exits
 // non-zero and the check reports a broken correspondence — never a guess.
 
@@ -43,12 +44,18 @@ func verifC19FieldList(t reflect.Type) string {
 	return t.String() + " { " + s + " }"
 }
 
-// verifC19Only returns the offset of the only field of t that satisfies want.
-func verifC19Only(t reflect.Type, what string, want func(reflect.StructField) bool) (uintptr, reflect.Type) {
+// verifC19Only returns the offset of the only field of t that satisfies want. If several do (a change added a second
+// counter, say) the one named `today` — the field's present name, looked up as a string, so nothing breaks when it
+// is renamed — is taken if it is among them; otherwise the shape is ambiguous.
+func verifC19Only(t reflect.Type, what, today string, want func(reflect.StructField) bool) (uintptr, reflect.Type) {
 	found := -1
 	for i := 0; i < t.NumField(); i++ {
 		if want(t.Field(i)) {
 			if found >= 0 {
+				// several candidates: the one that still carries today's name, if exactly one of the candidates does
+				if f, ok := t.FieldByName(today); ok && want(f) {
+					return f.Offset, f.Type
+				}
 				panic(fmt.Sprintf("verif shim (singleflight, C19): set-up failure: %s has more than one field that is %s (%s and %s): "+
 					"which one to observe is ambiguous; shape found: %s", t, what, t.Field(found).Name, t.Field(i).Name, verifC19FieldList(t)))
 			}
@@ -64,12 +71,12 @@ func verifC19Only(t reflect.Type, what string, want func(reflect.StructField) bo
 func verifC19ResolveShape() verifC19Shape {
 	var sh verifC19Shape
 	g := reflect.TypeOf(Group{})
-	sh.mu, _ = verifC19Only(g, "a sync.Mutex", func(f reflect.StructField) bool { return f.Type == reflect.TypeOf(sync.Mutex{}) })
-	sh.calls, sh.callsType = verifC19Only(g, "a map[string]*<struct> of in-flight calls", func(f reflect.StructField) bool {
+	sh.mu, _ = verifC19Only(g, "a sync.Mutex", "mu", func(f reflect.StructField) bool { return f.Type == reflect.TypeOf(sync.Mutex{}) })
+	sh.calls, sh.callsType = verifC19Only(g, "a map[string]*<struct> of in-flight calls", "m", func(f reflect.StructField) bool {
 		t := f.Type
 		return t.Kind() == reflect.Map && t.Key().Kind() == reflect.String && t.Elem().Kind() == reflect.Ptr && t.Elem().Elem().Kind() == reflect.Struct
 	})
-	sh.dups, _ = verifC19Only(sh.callsType.Elem().Elem(), "of kind int (the count of joined callers)",
+	sh.dups, _ = verifC19Only(sh.callsType.Elem().Elem(), "of kind int (the count of joined callers)", "dups",
 		func(f reflect.StructField) bool { return f.Type.Kind() == reflect.Int })
 	return sh
 }
